@@ -54,7 +54,8 @@ struct Op { std::string t; long long a, b; };
 struct Case {
 	aio::io_service *srv;
 	int reactor;            // booster constant
-	bool pick_hi, reuse, stop_pending;
+	bool pick_hi, pick_all, reuse, stop_pending;
+	std::string mode;
 	int nfd;
 	int fa[NFMAX], fb[NFMAX];
 	bool closedA[NFMAX], closedB[NFMAX];
@@ -269,6 +270,7 @@ void nothing_ready(int timeout)
 int choose(std::vector<int> const &ready_idx)
 {
 	if(ready_idx.empty()) return -1;
+	if(C->pick_all) return -2;   // batch mode: report every ready descriptor
 	int best = ready_idx[0];
 	for(size_t i = 1; i < ready_idx.size(); i++)
 		if(C->pick_hi ? ready_idx[i] > best : ready_idx[i] < best) best = ready_idx[i];
@@ -304,7 +306,7 @@ extern "C" int poll(struct pollfd *fds, nfds_t n, int timeout)
 	r = 0;
 	for(nfds_t i = 0; i < n; i++) {
 		int ix = idx_of(fds[i].fd);
-		if(ix >= 0 && ix != keep) fds[i].revents = 0;
+		if(ix >= 0 && ix != keep && keep != -2) fds[i].revents = 0;
 		if(fds[i].revents) r++;
 	}
 	if(r == 0) nothing_ready(timeout);
@@ -323,7 +325,7 @@ extern "C" int epoll_wait(int epfd, struct epoll_event *evs, int maxevents, int 
 	int w = 0;
 	for(int i = 0; i < r; i++) {
 		int ix = idx_of(evs[i].data.fd);
-		if(ix >= 0 && ix != keep) continue;
+		if(ix >= 0 && ix != keep && keep != -2) continue;
 		evs[w++] = evs[i];
 	}
 	if(w == 0) nothing_ready(timeout);
@@ -346,7 +348,7 @@ extern "C" int select(int nfds, fd_set *rd, fd_set *wr, fd_set *ex, struct timev
 	r = 0;
 	for(int fd = 0; fd < nfds; fd++) {
 		int ix = idx_of(fd);
-		if(ix >= 0 && ix != keep) {
+		if(ix >= 0 && ix != keep && keep != -2) {
 			if(rd) FD_CLR(fd, rd);
 			if(wr) FD_CLR(fd, wr);
 			if(ex) FD_CLR(fd, ex);
@@ -366,6 +368,8 @@ bool parse(std::vector<std::string> const &tok, Case &c, std::string &err)
 	if(tok.size() < 4) { err = "short"; return false; }
 	c.reactor = tok[1] == "e" ? aio::reactor::use_epoll : tok[1] == "p" ? aio::reactor::use_poll : aio::reactor::use_select;
 	c.pick_hi = !tok[2].empty() && tok[2][0] == 'h';
+	c.pick_all = !tok[2].empty() && tok[2][0] == 'a';
+	c.mode = tok[2];
 	c.reuse = tok[2].size() > 2 && tok[2][2] == 'r';
 	c.nfd = atoi(tok[3].c_str());
 	if(c.nfd < 0 || c.nfd > NFMAX) { err = "nfd"; return false; }
@@ -460,7 +464,7 @@ std::string loop_case(std::vector<std::string> const &tok)
 		c.flags.insert("EXC");
 	}
 	if(restarts > 200) c.flags.insert("LIVELOCK");
-	std::string out = "loop sub=" + join(c.subs) + " log=" + join(c.log) + " flags=" + join(std::vector<std::string>(c.flags.begin(), c.flags.end()));
+	std::string out = "loop sub=" + join(c.subs) + " log=" + join(c.log) + " flags=" + join(std::vector<std::string>(c.flags.begin(), c.flags.end())) + " mode=" + c.mode;
 	c17_virtual = false;
 	for(std::map<long long, aio::deadline_timer *>::iterator p = c.dts.begin(); p != c.dts.end(); ++p) delete p->second;
 	for(int f = 0; f < c.nfd; f++) {
